@@ -118,7 +118,7 @@ PROPS = {
             'current_op returns, for the operator at the cursor, the binding power and associativity of the table bp_of, and that operator is the composite token actually present (so the following bump consumes exactly it)',
             'outside the three recorded carve-outs bp_of orders the 19 binary operators exactly as the OpenQASM 3 table; all are left-associative; compound assignments are right-associative and lowest',
             'expr_bp parses the right operand of an operator of binding power b with minimum b + 1 if it is left-associative and b if right-associative (so chains of one level nest to the left / right as the table says)',
-            "hand-written typed accessors (unit ASTX, over an abstract view of the node's children): while / for body and condition, if condition, binary lhs / rhs, range start / step / stop (2 and 3 children), assignment target and value return the constituent of that role; if then / else bodies when the then-body is a block (recorded finding otherwise)",
+            "hand-written typed accessors (unit ASTX, over an abstract view of the node's children): while / for body and condition, if condition and bodies, gate angle / qubit parameter lists, callee names of calls and gate calls, binary lhs / rhs, range start / step / stop (2 and 3 children), assignment target and value return the constituent of that role; if then / else bodies when the then-body is a block (recorded finding otherwise)",
         ],
         not_decided=[
             'that the Pratt loop builds the tree the table implies (functional correctness of expr_bp / precede)',
@@ -186,7 +186,7 @@ PROPS = {
         explanation='Verus.',
     ),
     'C09': dict(
-        units=['sema', 'sym'],
+        units=['sema', 'sym', 'astx'],
         decided=[
             'scalar_type_to_type: base type <-> keyword, const flag = argument, bit[n] / qubit[n] -> one-dimensional registers of length n, width = designator value',
             'designator_to_asg: an integer literal yields exactly its value (carve-out: >= 2^32), any other literal is diagnosed, a const identifier yields its recorded value or InvalidDesignatorError',
